@@ -297,8 +297,19 @@ class LocArr(IntArr):
 class SArr3(Model):
     """self.s : heap['s'][row][s_loc][lane]; only the slice assignment s[3:, s_loc, vector] = (8 values) is modelled"""
 
+    row0 = 0
+
+    def m_getitem(self, ex, st, idx, node):
+        if isinstance(idx, slice) and idx.start == 3 and idx.stop is None and idx.step is None and self.row0 == 0:
+            v = SArr3()          # basic slice s[3:]: a view on rows 3.. (writes go through)
+            v.row0 = 3
+            return v
+        raise NotInSubset('read of s')
+
     def m_setitem(self, ex, st, idx, val, node):
-        if not (isinstance(idx, tuple) and len(idx) == 3 and isinstance(idx[0], slice) and idx[0].start == 3 and idx[0].stop is None and idx[0].step is None):
+        ok_direct = self.row0 == 0 and isinstance(idx, tuple) and len(idx) == 3 and isinstance(idx[0], slice) and idx[0].start == 3 and idx[0].stop is None and idx[0].step is None
+        ok_view = self.row0 == 3 and isinstance(idx, tuple) and len(idx) == 3 and idx[0] == slice(None, None, None)
+        if not (ok_direct or ok_view):
             raise NotInSubset('assignment into s other than s[3:, s_loc, vector]')
         if not (isinstance(val, tuple) and len(val) == 8):
             ex.prove(st, 'no-exception:the capture result has 8 entries (rows 3..10 of s)', False, node)
@@ -366,7 +377,7 @@ def c_to_s_config():
         yield 'frame: rows 0..2 (the assignments) are untouched', SBool(z3.And(S[0] == g['s0'][0], S[1] == g['s0'][1], S[2] == g['s0'][2]))
         ex.prove(st, 'mustfail:s is unchanged', SBool(S == g['s0']), ex.fn, expect='refuted')
 
-    contract = {'post': post, 'loop_match': {0: ('zip(', 0), 1: ('range(', 0)},
+    contract = {'post': post, 'loop_match': {0: ('zip(', 0), 1: ('@inner:0', 0)},
                 'loops': {0: {'inv': outer_inv, 'modifies': ['s'], 'kinds': {}}, 1: {'inv': inner_inv, 'modifies': ['s'], 'kinds': {}}}}
     return Config('any interface, any lanes', contract, setup, None)
 
@@ -418,7 +429,9 @@ class VArr(Model):
 
     def m_getitem(self, ex, st, idx, node):
         from pyvc.values import _conc_int
-        if isinstance(idx, tuple) and len(idx) == 2 and idx[0] == slice(None, None, None) and isinstance(idx[1], IntArr) and self.rank == 3:
+        if isinstance(idx, tuple) and len(idx) == 2 and isinstance(idx[0], slice) and idx[0].start is None and idx[0].step is None and isinstance(idx[1], IntArr) and self.rank == 3 \
+                and (idx[0].stop is None or (_conc_int(idx[0].stop) is not None and _conc_int(idx[0].stop) >= 3)):
+            # s[:k, idx] with k >= 3: rows 0..2 are the only ones the function reads (a row index >= k would be an IndexError in numpy; k >= 3 covers them)
             arr = st.heap[idx[1].name]
             return VArr(3, lambda r, j, l: self.elem(r, z3.Select(arr, j), l), self.kind)
         k = _conc_int(idx)
@@ -435,8 +448,16 @@ class VArr(Model):
         f = (lambda *ix: me.elem(*ix) != o) if op is _ast.NotEq else (lambda *ix: me.elem(*ix) == o)
         return VArr(self.rank, f, 'bool')
 
+    def m_unary(self, ex, st, op, node):
+        if op is _ast.Invert and self.kind == 'bool':
+            return VArr(self.rank, lambda *ix: z3.Not(self.elem(*ix)), 'bool')
+        raise NotInSubset('unary operator on an array')
+
     def m_binop(self, ex, st, op, a, b, node):
         x, y = a, b
+        if op in (_ast.BitAnd, _ast.BitOr) and isinstance(x, VArr) and isinstance(y, VArr) and x.kind == 'bool' and y.kind == 'bool':
+            f = z3.And if op is _ast.BitAnd else z3.Or
+            return VArr(self.rank, lambda *ix: f(x.elem(*ix), y.elem(*ix)), 'bool')
         if op not in (_ast.Add, _ast.Mult):
             raise NotInSubset('array arithmetic other than + and *')
 
@@ -515,7 +536,23 @@ def s_to_c_prims(globs):
             return r
         ex.assumed.add('np.choose(selector, choices) element-wise with broadcasting of scalar choices')
         return VArr(2, elem, 'real')
-    return {np.choose: choose}
+    def where(ex, st, args, kwargs, node):
+        if len(args) != 3 or not isinstance(args[0], VArr) or args[0].kind != 'bool' or args[0].rank != 2:
+            raise NotInSubset('np.where shape')
+        cnd = args[0]
+
+        def val(v):
+            if isinstance(v, VArr):
+                if v.kind != 'real' or v.rank != 2:
+                    raise NotInSubset('np.where operand')
+                return v.elem
+            if isinstance(v, Model):
+                raise NotInSubset('np.where operand')
+            return lambda j_, l_, v=v: rv(v)
+        fa, fb = val(args[1]), val(args[2])
+        ex.assumed.add('np.where(mask, a, b) element-wise with broadcasting of scalars')
+        return VArr(2, lambda j_, l_: z3.If(cnd.elem(j_, l_), fa(j_, l_), fb(j_, l_)), 'real')
+    return {np.choose: choose, np.where: where}
 
 
 class PCArr(LocArr):
